@@ -166,8 +166,12 @@ func (m *model) shapeKey() string {
 	var b strings.Builder
 	for j := 0; j < m.n; j++ {
 		switch {
+		case m.leader[j] && m.c.Peers[j].Role != "":
+			b.WriteByte('J')
 		case m.leader[j]:
 			b.WriteByte('L')
+		case m.c.Peers[j].Role != "":
+			b.WriteByte('j')
 		case m.learner[j]:
 			b.WriteByte('l')
 		default:
@@ -237,7 +241,7 @@ func judgeRules(c *Case, seed uint64, cache *storeCache, rules []*placement.Rule
 	m, skip := newModel(c)
 	if skip != "" {
 		out.Skip = skip
-		if skip == "joint-consensus-role" || skip == "peer-without-store" {
+		if skip == "peer-without-store" {
 			// only with rule lists the rule manager would accept field-wise (count > 0, known role):
 			// anything else cannot reach FitRegion in a server
 			ok := true
